@@ -194,8 +194,15 @@ def _same_value(a, b):
 
 
 def _obj_equal(interp, a, b):
+    """Same option values.  Config objects are compared field by field (names and values),
+    not by class: the property is about the values a builder produces, and a preset built as
+    `UNetConfig(**overrides)` with the right values is as good as `UNetMediumRFConfig()`."""
     import ast as _ast
 
+    if isinstance(a, Obj) and isinstance(b, Obj) and getattr(a.cls, "is_attrs", False) and getattr(b.cls, "is_attrs", False):
+        if set(a.attrs) != set(b.attrs):
+            return False
+        return V.b_and(*[_obj_equal(interp, a.attrs[k], b.attrs[k]) for k in sorted(a.attrs)])
     r = interp.compare(_ast.Eq(), a, b)
     return interp._as_boolkind(r)
 
